@@ -187,3 +187,39 @@ Proof.
     + unfold union_root. rewrite rcls_merge. destruct m; exact Hc.
     + unfold union_root. apply plain_tree_merge; [apply plain_tree_with_mds; exact Hpm|exact Hpr].
 Qed.
+
+(* ---------- partial saves into a fresh file: each is the file of a smaller tree, so it passes as well *)
+From Emd Require Import Model.Reader.
+Lemma root_with_enc root ks : root_with root (enc_kids ks) = enc (with_kids root ks).
+Proof. destruct root; reflexivity. Qed.
+Lemma node_shallow_enc data : node_shallow data = enc (with_kids data []).
+Proof. destruct data as [c s t r m ks]. rewrite enc_eq. cbn [with_kids rkids enc_kids map]. rewrite app_nil_r. reflexivity. Qed.
+
+Lemma plain_tree_walk root : plain_tree root -> forall tp data, tp <> [] -> rwalk root tp = Some data ->
+  plain (rname data) = true /\ rname data <> "metadatabundle" /\ rcls data <> CRoot /\ plain_tree data.
+Proof.
+  induction root as [c nm t r m ks IH] using rnode_ind'. intros Hp tp data Hne Hw. destruct tp as [|x q]; [congruence|].
+  cbn [rwalk rkids] in Hw. destruct (rget ks x) as [kid|] eqn:E; [|discriminate]. apply rget_in in E. destruct E as (Hin & _).
+  apply plain_tree_inv in Hp. cbn [rkids] in Hp. rewrite Forall_forall in Hp, IH. destruct (Hp kid Hin) as (A & B & C & D).
+  destruct q as [|y q']; [injection Hw as <-; auto|]. apply (IH kid Hin D (y :: q') data); [discriminate|exact Hw].
+Qed.
+
+Theorem wf_partial_saves c root tp data :
+  rcls root = CRoot -> plain_tree root -> tp <> [] -> rwalk root tp = Some data ->
+  wf_emd c (G (header c) [(rname root, root_with root [(rname data, node_shallow data)])]) = true /\
+  wf_emd c (G (header c) [(rname root, root_with root [(rname data, enc data)])]) = true /\
+  wf_emd c (G (header c) [(rname root, root_with root (enc_kids (rkids data)))]) = true.
+Proof.
+  intros Hc Hp Hne Hw. destruct (plain_tree_walk root Hp tp data Hne Hw) as (A & B & C & D).
+  assert (forall ks, Forall (fun k => plain (rname k) = true /\ rname k <> "metadatabundle" /\ rcls k <> CRoot /\ plain_tree k) ks ->
+            wf_emd c (G (header c) [(rname root, root_with root (enc_kids ks))]) = true) as Hgen.
+  { intros ks Hks. rewrite root_with_enc.
+    assert (rname root = rname (with_kids root ks)) as -> by (destruct root; reflexivity).
+    apply (wf_whole_file c (with_kids root ks)); [destruct root; exact Hc|]. apply plain_tree_inv. destruct root; exact Hks. }
+  split; [|split].
+  - rewrite node_shallow_enc. assert (rname data = rname (with_kids data [])) as -> by (destruct data; reflexivity).
+    apply (Hgen [with_kids data []]). constructor; [|constructor]. destruct data as [c0 s0 t0 r0 m0 k0]. cbn [with_kids rname rcls] in *.
+    repeat split; try assumption.
+  - apply (Hgen [data]). constructor; [|constructor]. auto.
+  - apply Hgen. apply plain_tree_inv. exact D.
+Qed.
